@@ -181,7 +181,10 @@ func (l *Linter) lintUnusedVariables(ctx *context.Context) {
 		if o.IsUsed {
 			continue
 		}
-		l.Error(UnusedVariable(o.Meta, k).Match(UNUSED_VARIABLE))
+		// Whether the variable is ignored has been decided at its declare statement (it is marked as used there).
+		// The ignore state in effect when the subroutine ends must not decide it again: a falco-ignore-start
+		// written after the declaration and still open here would hide the variable declared before it.
+		l.Errors = append(l.Errors, UnusedVariable(o.Meta, k).Match(UNUSED_VARIABLE))
 	}
 }
 
